@@ -624,7 +624,219 @@ Proof.
     rewrite (win_splice_at _ _ _ 16 Hle Hg); splice_simpl Hle.
   - repeat step; intros Hk; injection Hk as <-; cbn in Hty; subst; try discriminate; reflexivity.
   - repeat step; intros Hk; injection Hk as <-; cbn in Hty; subst; try discriminate.
-    Show.
-Abort.
+    rewrite Hnz. reflexivity.
+Qed.
+
+(* a stream entry with non-zero creation / modification times (bytes 100..115) *)
+Theorem tolerated_stream_times : forall v bs e t,
+  dirent_decode v true bs = Ok e -> d_type e = TStream ->
+  lenN t = 16 ->
+  le_val (takeN 8 t) <> 0 \/ le_val (takeN 8 (dropN 8 t)) <> 0 ->
+  let bs' := spliceN bs 100 t in
+  dirent_decode v false bs' = Ok e /\ dirent_decode v true bs' = Err EInvalidData.
+Proof.
+  intros v bs e t H Hty Hg Hnz bs'. subst bs'.
+  pose proof (dirent_decode_len _ _ _ _ H) as Hlen.
+  assert (Hle : 100 + lenN t <= lenN bs) by lia.
+  split; revert H; unfold dirent_decode;
+    rewrite (win_splice_inside _ _ _ 100 8 Hle), (win_splice_inside _ _ _ 108 8 Hle) by lia;
+    change (100 - 100) with 0; change (108 - 100) with 8; rewrite dropN_0;
+    splice_simpl Hle.
+  - repeat step; intros Hk; injection Hk as <-; cbn in Hty; subst; try discriminate; reflexivity.
+  - repeat step; intros Hk; injection Hk as <-; cbn in Hty; subst; try discriminate.
+    cbn [objtype_eqb andb].
+    destruct (le_val (takeN 8 t) =? 0) eqn:E1; [|reflexivity].
+    destruct (le_val (takeN 8 (dropN 8 t)) =? 0) eqn:E2; [|reflexivity].
+    apply N.eqb_eq in E1, E2. exfalso. destruct Hnz as [Hn|Hn]; apply Hn; assumption.
+Qed.
+
+(* a storage entry with a non-zero start sector / stream length (bytes 116..127) *)
+Theorem tolerated_storage_start_len : forall v bs e g,
+  dirent_decode v true bs = Ok e -> d_type e = TStorage ->
+  lenN g = 12 ->
+  le_val (takeN 4 g) <> 0 \/ N.land (le_val (takeN 8 (dropN 4 g))) (stream_len_mask v) <> 0 ->
+  let bs' := spliceN bs 116 g in
+  dirent_decode v false bs' = Ok e /\ dirent_decode v true bs' = Err EInvalidData.
+Proof.
+  intros v bs e g H Hty Hg Hnz bs'. subst bs'.
+  pose proof (dirent_decode_len _ _ _ _ H) as Hlen.
+  assert (Hle : 116 + lenN g <= lenN bs) by lia.
+  split; revert H; unfold dirent_decode;
+    rewrite (win_splice_inside _ _ _ 116 4 Hle), (win_splice_inside _ _ _ 120 8 Hle) by lia;
+    change (116 - 116) with 0; change (120 - 116) with 4; rewrite dropN_0;
+    splice_simpl Hle.
+  - repeat step; intros Hk; injection Hk as <-; cbn in Hty; subst; try discriminate; reflexivity.
+  - repeat step; intros Hk; injection Hk as <-; cbn in Hty; subst; try discriminate.
+    cbn [objtype_eqb andb].
+    destruct (le_val (takeN 4 g) =? 0) eqn:E1; [|reflexivity].
+    destruct (N.land (le_val (takeN 8 (dropN 4 g))) (stream_len_mask v) =? 0) eqn:E2; [|reflexivity].
+    apply N.eqb_eq in E1, E2. exfalso. destruct Hnz as [Hn|Hn]; apply Hn; assumption.
+Qed.
+
+(* ---- the name field ---- *)
+
+Lemma list_eqb_eq : forall a b, list_eqb N.eqb a b = true -> a = b.
+Proof.
+  induction a as [|x t IH]; intros [|y t'] H; cbn [list_eqb] in H; try discriminate; [reflexivity|].
+  apply andb_true_iff in H. destruct H as [H1 H2]. apply N.eqb_eq in H1. subst y.
+  f_equal. apply IH. exact H2.
+Qed.
+
+Lemma list_eqb_neq : forall a b, a <> b -> list_eqb N.eqb a b = false.
+Proof.
+  intros a b H. destruct (list_eqb N.eqb a b) eqn:E; [|reflexivity].
+  exfalso. apply H. apply list_eqb_eq. exact E.
+Qed.
+
+Lemma lenN_u16s_aux : forall n l, (length l <= n)%nat -> lenN (u16s l) = lenN l / 2.
+Proof.
+  induction n as [|n IH]; intros l Hl.
+  - destruct l; [reflexivity | cbn in Hl; lia].
+  - destruct l as [|x [|y t]]; [reflexivity | reflexivity |].
+    cbn [u16s lenN]. rewrite IH by (cbn in Hl; lia).
+    replace (N.succ (N.succ (lenN t))) with (lenN t + 1 * 2) by lia.
+    rewrite N.div_add by lia. lia.
+Qed.
+
+Lemma lenN_u16s : forall l, lenN (u16s l) = lenN l / 2.
+Proof. intros. apply (lenN_u16s_aux (length l)). lia. Qed.
+
+Lemma name_chars_len : forall l, 64 <= lenN l -> lenN (u16s (takeN 64 l)) = 32.
+Proof. intros. rewrite lenN_u16s, lenN_takeN, N.min_l by lia. reflexivity. Qed.
+
+Lemma nlc_bound : forall nlb, (64 <? nlb) = false ->
+  (if 0 <? nlb then nlb / 2 - 1 else 0) <= 31.
+Proof.
+  intros nlb H. apply N.ltb_ge in H. destruct (0 <? nlb); [|lia].
+  pose proof (N.div_le_mono nlb 64 2 ltac:(lia) H) as Hd.
+  change (64 / 2) with 32 in Hd. lia.
+Qed.
+
+Lemma take_splice_inside0 : forall l g k, lenN g <= lenN l -> k <= lenN g ->
+  takeN k (spliceN l 0 g) = takeN k g.
+Proof.
+  intros l g k H Hk.
+  transitivity (takeN k (dropN 0 (spliceN l 0 g))); [rewrite dropN_0; reflexivity|].
+  rewrite win_splice_inside by lia. change (0 - 0) with 0. rewrite dropN_0. reflexivity.
+Qed.
+
+(* a root entry whose name field holds some other (well-formed) name: the
+   first 66 bytes (name and name length) are replaced *)
+Theorem tolerated_root_name : forall v bs e nb nm0,
+  dirent_decode v true bs = Ok e -> d_type e = TRoot ->
+  lenN nb = 66 ->
+  let nlb := le_val (takeN 2 (dropN 64 nb)) in
+  let nlc := if 0 <? nlb then nlb / 2 - 1 else 0 in
+  nlb <= 64 -> nlb mod 2 = 0 ->
+  from_utf16 (takeN nlc (u16s (takeN 64 nb))) = Some nm0 ->
+  nm0 <> ROOT_DIR_NAME ->
+  let bs' := spliceN bs 0 nb in
+  dirent_decode v false bs' = Ok e /\ dirent_decode v true bs' = Err EInvalidData.
+Proof.
+  intros v bs e nb nm0 H Hty Hg nlb nlc H64 Hmod Hutf Hneq bs'. subst bs'.
+  pose proof (dirent_decode_len _ _ _ _ H) as Hlen.
+  assert (Hle : 0 + lenN nb <= lenN bs) by lia.
+  apply N.ltb_ge in H64. apply N.eqb_eq in Hmod. apply list_eqb_neq in Hneq.
+  assert (Hlt : nlc < lenN (u16s (takeN 64 nb))).
+  { rewrite name_chars_len by lia. pose proof (nlc_bound nlb H64). fold nlc in H0. lia. }
+  destruct (nthN_some _ _ Hlt) as [term Hterm].
+  split; revert H; unfold dirent_decode;
+    rewrite (take_splice_inside0 bs nb 64) by lia;
+    rewrite (win_splice_inside _ _ _ 64 2 Hle) by lia; change (64 - 0) with 64;
+    splice_simpl Hle; fold nlb; fold nlc.
+  - repeat step; intros Hk; injection Hk as <-; cbn in Hty; subst; try discriminate.
+    rewrite H64, Hmod. cbn [negb]. rewrite Hterm, Hutf; norm. rewrite Hneq; norm.
+    match goal with Hr : list_eqb N.eqb _ ROOT_DIR_NAME = true |- _ =>
+      apply list_eqb_eq in Hr; rewrite Hr end.
+    reflexivity.
+  - repeat step; intros Hk; injection Hk as <-; cbn in Hty; subst; try discriminate.
+    rewrite H64, Hmod. cbn [negb]. rewrite Hterm; norm.
+    destruct (negb (term =? 0)); [reflexivity|].
+    rewrite Hutf; norm. rewrite Hneq; norm. reflexivity.
+Qed.
+
+(* ---- the name terminator ---- *)
+
+Lemma splice_cons : forall x t n g, spliceN (x :: t) (N.succ n) g = x :: spliceN t n g.
+Proof.
+  intros. unfold spliceN. cbn [takeN dropN]. rewrite succ_eqb0, N.pred_succ.
+  cbn [lenN app]. rewrite N.sub_succ.
+  replace (N.succ n + lenN g =? 0) with false by (symmetry; apply N.eqb_neq; lia).
+  replace (N.pred (N.succ n + lenN g)) with (n + lenN g) by lia.
+  reflexivity.
+Qed.
+
+Lemma u16s_splice : forall k l a b, 2 * k + 2 <= lenN l ->
+  u16s (spliceN l (2 * k) [a; b]) = updN (u16s l) k (a + 256 * b).
+Proof.
+  intros k. induction k as [|k IH] using N.peano_ind; intros l a b H.
+  - destruct l as [|x [|y t]]; cbn [lenN] in H; try lia.
+    unfold spliceN. cbn. rewrite dropN_0. reflexivity.
+  - destruct l as [|x [|y t]]; cbn [lenN] in H; try lia.
+    replace (2 * N.succ k) with (N.succ (N.succ (2 * k))) by lia.
+    rewrite !splice_cons. cbn [u16s updN]. rewrite succ_eqb0, N.pred_succ.
+    f_equal. apply IH. lia.
+Qed.
+
+Lemma takeN_splice_comm : forall l off g n, off + lenN g <= n -> n <= lenN l ->
+  takeN n (spliceN l off g) = spliceN (takeN n l) off g.
+Proof.
+  intros l off g n H1 H2. apply list_ext. intros i.
+  assert (Ht : lenN (takeN n l) = n) by (rewrite lenN_takeN; lia).
+  rewrite nthN_takeN, !nthN_splice by lia. rewrite nthN_takeN.
+  destruct (off <=? i) eqn:E1; destruct (i <? off + lenN g) eqn:E2; destruct (i <? n) eqn:E3;
+    cbn [andb]; rewrite ?N.leb_le, ?N.leb_gt, ?N.ltb_lt, ?N.ltb_ge in *; try lia; reflexivity.
+Qed.
+
+Lemma name_chars_splice : forall bs k a b, 64 <= lenN bs -> 2 * k + 2 <= 64 ->
+  u16s (takeN 64 (spliceN bs (2 * k) [a; b])) = updN (u16s (takeN 64 bs)) k (a + 256 * b).
+Proof.
+  intros bs k a b H1 H2.
+  rewrite takeN_splice_comm by (cbn [lenN]; lia).
+  apply u16s_splice. rewrite lenN_takeN. lia.
+Qed.
+
+Lemma nthN_updN_same : forall {A} (l : list A) i v, i < lenN l -> nthN (updN l i v) i = Some v.
+Proof.
+  induction l as [|x t IH]; intros i v H; cbn [lenN] in H; [lia|].
+  cbn [updN]. destruct (i =? 0) eqn:Ei; cbn [nthN]; rewrite Ei; [reflexivity|].
+  apply N.eqb_neq in Ei. apply IH. lia.
+Qed.
+
+Lemma takeN_updN : forall {A} (l : list A) i v, takeN i (updN l i v) = takeN i l.
+Proof.
+  induction l as [|x t IH]; intros i v; [reflexivity|].
+  cbn [updN]. destruct (i =? 0) eqn:Ei; cbn [takeN]; rewrite Ei; [reflexivity|].
+  f_equal. apply IH.
+Qed.
+
+(* the UTF-16 unit after the name (the terminator) is not zero *)
+Theorem tolerated_unterminated_name : forall v bs e a b,
+  dirent_decode v true bs = Ok e ->
+  a + 256 * b <> 0 ->
+  let nlb := le_val (takeN 2 (dropN 64 bs)) in
+  let nlc := if 0 <? nlb then nlb / 2 - 1 else 0 in
+  let bs' := spliceN bs (2 * nlc) [a; b] in
+  dirent_decode v false bs' = Ok e /\ dirent_decode v true bs' = Err EInvalidData.
+Proof.
+  intros v bs e a b H Hnz nlb nlc bs'. subst bs'.
+  pose proof (dirent_decode_len _ _ _ _ H) as Hlen.
+  assert (H64 : (64 <? nlb) = false).
+  { revert H. unfold dirent_decode. fold nlb. do 2 step. intros _. reflexivity. }
+  pose proof (nlc_bound nlb H64) as Hb. fold nlc in Hb.
+  assert (Hchars : u16s (takeN 64 (spliceN bs (2 * nlc) [a; b])) =
+                   updN (u16s (takeN 64 bs)) nlc (a + 256 * b))
+    by (apply name_chars_splice; lia).
+  assert (Hlt : nlc < lenN (u16s (takeN 64 bs))) by (rewrite name_chars_len by lia; lia).
+  set (g := [a; b]) in *.
+  assert (Hg : lenN g = 2) by reflexivity.
+  assert (Hle : 2 * nlc + lenN g <= lenN bs) by lia.
+  apply N.eqb_neq in Hnz.
+  assert (64 + 2 <= 2 * nlc \/ 2 * nlc + lenN g <= 64) by lia.
+  split; revert H; unfold dirent_decode; cbv zeta; rewrite Hchars. rewrite (win_splice_outside _ _ _ 64 2 Hle) by lia. Show. all: 
+    rewrite takeN_updN, (nthN_updN_same _ _ _ Hlt).
+  - repeat step; exact (fun H => H).
+  - repeat step; intros _; rewrite Hnz; reflexivity.
+Qed.
 
 Print Assumptions strict_implies_permissive.
